@@ -528,6 +528,12 @@ func (lb *LoadBalancer) RemoveBackend(name string) {
 			lb.strategy.RemoveBackend(backend)
 		}
 	}
+
+	// The passive failure tally is kept per name: forget it with the backend,
+	// so that a backend added under the same name later starts from zero
+	lb.healthChecks.unhealthyBackendMu.Lock()
+	delete(lb.healthChecks.unhealthyBackends, name)
+	lb.healthChecks.unhealthyBackendMu.Unlock()
 }
 
 // NextBackend returns the next backend server according to the strategy
